@@ -150,7 +150,9 @@ def run_sdc(case, r):
         r.observe('unavailable', f"{case['q1']}/{case['q2']}:{nt}/{qt}/{M}")
         r.check(True, 'noop', '')
         return
-    modes = [False, True] if right else [True]
+    # both end-point modes for every quadrature type: without a node at the right end the sweeper has to fall back to the
+    # collocation update even when do_coll_update=False is requested (the default)
+    modes = [False, True]
     # round-off amplification of k sweeps: |K(z)|^k with K the sweep iteration matrix from qmat's coefficients; Taylor
     # coefficients can only be resolved while this stays far below 1/eps (divergent preconditioner/node pairs at |z|=rad)
     with np.errstate(all='ignore'):
